@@ -11,6 +11,24 @@ import time
 import z3
 
 
+import threading
+
+
+def timed_check(solver, timeout_s):
+    """solver.check() with a hard wall-clock limit (z3's own timeout is not always honoured
+    inside the sequence solver): the context is interrupted from a timer thread"""
+    ctx = solver.ctx
+    timer = threading.Timer(timeout_s, ctx.interrupt)
+    timer.daemon = True
+    timer.start()
+    try:
+        return solver.check()
+    except z3.Z3Exception:
+        return z3.unknown
+    finally:
+        timer.cancel()
+
+
 class PathEnd(Exception):
     """the current path is over (infeasible, cut at a loop, assume(False))"""
 
@@ -75,10 +93,29 @@ class PathCtx:
         self.solver.add(cond)
         self.ex.solver_calls += 1
         t0 = time.time()
-        r = self.solver.check()
+        r = timed_check(self.solver, self.ex.branch_timeout_ms / 1000.0 + 0.5)
         self.ex.solver_time += time.time() - t0
         self.solver.pop()
         return r != z3.unsat  # unknown counts as feasible (sound: more paths)
+
+    def implied(self, f, timeout_ms=300):
+        """True if the path condition certainly implies f (used only to pick simpler but
+        equivalent encodings; 'don't know' is always a safe answer).  Deterministic per path
+        prefix is not required: both encodings are logically equivalent under the pc."""
+        f = z3.simplify(f)
+        if z3.is_true(f):
+            return True
+        if z3.is_false(f):
+            return False
+        self.solver.push()
+        self.solver.add(z3.Not(f))
+        self.solver.set("timeout", timeout_ms)
+        try:
+            r = timed_check(self.solver, timeout_ms / 1000.0 + 0.2)
+        finally:
+            self.solver.set("timeout", self.ex.branch_timeout_ms)
+            self.solver.pop()
+        return r == z3.unsat
 
     def choose(self, conds, what="choice"):
         """pick one of several alternatives, each guarded by a z3 Bool.
